@@ -182,8 +182,8 @@ def run(ctx):
                     continue
                 lines.append(B.coq_triangle_defs(f"t{gi}", wt))
                 lines.append(f"Definition b{gi} : bytes := {B.coq_zlist(b)}.")
-                ser_chk.append((gi, f"zlist_eqb (ser t{gi}) b{gi}"))
-                hyp_chk.append((gi, f"wfb t{gi} && no_0x88_keyb t{gi}"))
+                ser_chk.append((gi, f"zlist_eqb (ser_py t{gi}) b{gi} && zlist_eqb (ser t{gi}) b{gi}"))
+                hyp_chk.append((gi, f"wfb t{gi} && no_0x88_keyb t{gi} && coherentb t{gi} && pyeq_reflb t{gi}"))
                 cr = B.coq_result(rb)
                 if cr is not None:
                     lines.append(f"Definition r{gi} : result (list cell) := {cr}.")
@@ -202,8 +202,51 @@ def run(ctx):
             p.write_text("\n".join(lines) + "\n")
             files.append(p)
             index.append((ser_chk, parse_chk, hyp_chk, var_chk))
+        # ---- directed: ==-equal but non-identical adjacent metadata (writer's `!=` is Python's ==).
+        # The implementation collapses them to the first representation; the model (ser_py / rep_py,
+        # theorem C05_roundtrip_up_to_pyeq) must predict bytes and read-back exactly.
+        n_col = 24 if ctx.quick else 150
+        col_records = []
+        lines = [B.COQ_HEADER]
+        col_chk = []
+        for k in range(n_col):
+            wt = B.gen_collapse_triangle(rng)
+            tri = B.mk_triangle(wt)
+            b = B.impl_write(tri, scratch)
+            rb = B.impl_read(b, scratch)
+            col_records.append((wt, b, rb))
+            ctx.hist("pyeq_collapse_probe")
+            ctx.count(evaluations=2, traces=1)
+            cr = B.coq_result(rb)
+            lines.append(B.coq_triangle_defs(f"c{k}", wt))
+            lines.append(f"Definition cb{k} : bytes := {B.coq_zlist(b)}.")
+            lines.append(f"Definition cr{k} : result (list cell) := {cr or '(RErr EFuel)'}.")
+            col_chk.append(f"zlist_eqb (ser_py c{k}) cb{k} && result_eqb (parse cb{k}) cr{k} && "
+                           f"result_eqb cr{k} (ROk (rep_py c{k})) && wfb c{k} && no_0x88_keyb c{k}")
+        lines.append("Definition chk_col : list bool := [" + ";\n ".join(col_chk) + "].")
+        lines.append("Eval vm_compute in failing 0 chk_col.")
+        lines.append("Eval vm_compute in failing 0 (map negb [" + "; ".join(f"coherentb c{k}" for k in range(n_col)) + "]).")
+        pcol = ctx.build / "cases_collapse.v"
+        pcol.write_text("\n".join(lines) + "\n")
         t1 = time.time()
-        res = ctx.coqc_many(files, jobs=16, timeout=1500)
+        res = ctx.coqc_many(files + [pcol], jobs=16, timeout=1500)
+        rc, out = res.pop(pcol)
+        vals = B_parse(out) if rc == 0 else []
+        ok_col = rc == 0 and len(vals) == 2
+        ctx.obligation("cases_collapse.v evaluates", ok_col, "" if ok_col else out[-800:])
+        if ok_col:
+            ctx.count(evaluations=3 * n_col, traces=n_col)
+            n_really = n_col - len(vals[1])
+            ctx.notes.append(f"{n_really} of {n_col} directed triangles with ==-equal, non-identical adjacent metadata are "
+                             "collapsed by the implementation to the first representation, exactly as ser_py/rep_py predict "
+                             "(minor finding reported to the lead; not a check failure)")
+            for k in vals[0][:3]:
+                wt, b, rb = col_records[k]
+                ctx.violation("correspondence",
+                              "==-equal adjacent metadata: implementation bytes / read-back differ from the model's "
+                              "ser_py / rep_py", {"wt": wt, "check": "collapse", "impl_bytes": b.hex()[:8000],
+                                                  "impl_outcome": rb if rb[0] == "err" else ["ok", len(rb[1])]},
+                              found_input=False)
         ctx.log(f"coqc on {len(files)} case files: {time.time()-t1:.1f}s")
         n_eval = 0
         mismatches = []
@@ -243,8 +286,12 @@ def run(ctx):
             ctx.violation("obligation", "T-bin obligations (v1_constants / layout_matches_model) no longer hold; "
                           "round-trip oracle found no failing input", {"tbin_diff": tbin_diff}, found_input=False)
         ctx.extra["tbin_diff"] = tbin_diff
+        if not ctx.quick:
+            ctx.coqchk("Bermuda.Props.C05")
         ctx.assumptions += [
-            "writer's metadata-change test modelled as structural equality (adjacent slices in generated triangles are Python-unequal)",
+            "writer's metadata test: Python == modelled at wire level (meta_pyeqb: numbers by value, nan != nan, dicts as "
+            "item sets); generated detail floats are NaN-free (identity shortcut on shared objects not modelled); "
+            "coherentb is evaluated on every regular case, collapse cases are compared with rep_py",
             "gzip/zlib: decompress(compress(b)) = b (monitored on every case)",
             "strings as opaque UTF-8 byte lists; floats as opaque 8-byte patterns; array payloads as raw bytes",
             "the final Triangle(cells) of _read_triangle is outside the model (checked by the strict round-trip oracle)",
